@@ -79,7 +79,7 @@ class ST(Enum):
     TRAILER = 9
     SPECIAL_VEHICLE = 10
     TRAM = 11
-    ROAD_SIDE_UNIT = 12
+    ROAD_SIDE_UNIT = 15
 
     def encode_to_address(self) -> int:
         """
